@@ -1329,4 +1329,103 @@ example : statusCodesOf (run exT stW0 stOps) "S" = statusCodesOf stW0 "S" ∧
   rw [this]
   exact hc
 
+/-- **what a status declaration means does not depend on the definition order**: in any two programs that define their
+classes with the same (elaborated) bodies, each in an order consistent with inheritance, whatever else they do, a declaration
+`StatusType(<c>, …)` written after them is worked out to the same datatype - the codes of `c` are the same in both (`c` may have
+been defined before or after any other family using the same numbers under other names) -/
+theorem status_elab_order_independent (T : Tables) (env : Name → Option ClassDecl) (ops1 ops2 : List Op)
+    (ha1 : AdmissibleRun T {} ops1) (hc1 : ConsistentRun T env {} ops1)
+    (ha2 : AdmissibleRun T {} ops2) (hc2 : ConsistentRun T env {} ops2) (t : DTree)
+    (hp : ∀ c, t.kind = "status?" → aget? t.props "parent" = some c →
+      (run T {} ops1).findClass c ≠ none ∧ (run T {} ops2).findClass c ≠ none) :
+    elabTree (run T {} ops1) t = elabTree (run T {} ops2) t := by
+  unfold elabTree
+  split
+  · next p _ more =>
+    cases hpar : aget? p "parent" with
+    | none => rfl
+    | some c =>
+      obtain ⟨h1, h2⟩ := hp c rfl hpar
+      simp only [statusCodesOf, order_independent T env ops1 ops2 ha1 hc1 ha2 hc2 c h1 h2]
+  · rfl
+
+/-- … and the monitor is complete: one outcome per action ⇒ no offender -/
+theorem contextOffenders_complete {α β : Type} [DecidableEq α] [DecidableEq β] (l : List (α × β))
+    (h : ContextFree l) : contextOffenders l = [] := by
+  unfold contextOffenders
+  have hf : l.filter (fun p => l.any (fun q => p.1 == q.1 && decide (q.2 ≠ p.2))) = [] := by
+    rw [List.filter_eq_nil_iff]
+    intro p hp hany
+    rw [List.any_eq_true] at hany
+    obtain ⟨q, hq, hcond⟩ := hany
+    simp only [Bool.and_eq_true, beq_iff_eq, decide_eq_true_eq] at hcond
+    obtain ⟨hk, hne⟩ := hcond
+    have hq' : (p.1, q.2) ∈ l := by rw [hk]; exact hq
+    exact hne (h p.1 q.2 p.2 hq' hp)
+  rw [hf]
+  rfl
+
+/-- the two families of the example, their status worked out on top of `S`, defined in either order -/
+def stA : ClassDecl := ⟨"A1", ["A1", "S"], true, [("status", .param none (some (statusTree [("IDLE", 100), ("ERROR", 400)] [("TRIPPED", 410)])) [] true)]⟩
+def stB : ClassDecl := ⟨"B1", ["B1", "S"], true, [("status", .param none (some (statusTree [("IDLE", 100), ("ERROR", 400)] [("INTERLOCK", 410)])) [] true)]⟩
+def stEnv (n : Name) : Option ClassDecl :=
+  if n = "S" then some stS else if n = "A1" then some stA else if n = "B1" then some stB else none
+def stOps1 : List Op := [.define stS, .define stA, .define stB]
+def stOps2 : List Op := [.define stS, .define stB, .define stA]
+
+/-- the hypotheses of `status_elab_order_independent` are satisfiable (both orders admissible and consistent, the class named
+in the declaration defined by both), and what it gives on the concrete worlds: a subclass of `B1` adding RAMPING gets
+INTERLOCK - never TRIPPED - in either order -/
+example : elabTree (run exT {} stOps1) (pendingStatus (some "B1") [("RAMPING", 370)]) =
+      elabTree (run exT {} stOps2) (pendingStatus (some "B1") [("RAMPING", 370)]) ∧
+    (elabTree (run exT {} stOps1) (pendingStatus (some "B1") [("RAMPING", 370)])).children.head?.map DTree.members =
+      some [("IDLE", 100), ("ERROR", 400), ("INTERLOCK", 410), ("RAMPING", 370)] := by
+  have ha1 : AdmissibleRun exT {} stOps1 := by
+    refine ⟨rfl, ?_, ?_, trivial⟩ <;> exact Option.isNone_iff_eq_none.1 (by decide +kernel)
+  have ha2 : AdmissibleRun exT {} stOps2 := by
+    refine ⟨rfl, ?_, ?_, trivial⟩ <;> exact Option.isNone_iff_eq_none.1 (by decide +kernel)
+  have hS : ∀ ops : List Op, ((run exT {} ops).findClass "S").isSome = true → (run exT {} ops).findClass "S" ≠ none := by
+    intro ops h h'
+    rw [h'] at h
+    cases h
+  have hc1 : ConsistentRun exT stEnv {} stOps1 := by
+    refine ⟨⟨by simp [stEnv, stS], fun m hm => ?_⟩, ⟨by simp [stEnv, stA], fun m hm => ?_⟩,
+      ⟨by simp [stEnv, stB], fun m hm => ?_⟩, trivial⟩
+    · simp [stS] at hm
+    · simp only [stA, List.tail_cons, List.mem_singleton] at hm
+      subst hm
+      intro _
+      exact hS (stOps1.take 1) (by decide +kernel)
+    · simp only [stB, List.tail_cons, List.mem_singleton] at hm
+      subst hm
+      intro _
+      exact hS (stOps1.take 2) (by decide +kernel)
+  have hc2 : ConsistentRun exT stEnv {} stOps2 := by
+    refine ⟨⟨by simp [stEnv, stS], fun m hm => ?_⟩, ⟨by simp [stEnv, stB], fun m hm => ?_⟩,
+      ⟨by simp [stEnv, stA], fun m hm => ?_⟩, trivial⟩
+    · simp [stS] at hm
+    · simp only [stB, List.tail_cons, List.mem_singleton] at hm
+      subst hm
+      intro _
+      exact hS (stOps2.take 1) (by decide +kernel)
+    · simp only [stA, List.tail_cons, List.mem_singleton] at hm
+      subst hm
+      intro _
+      exact hS (stOps2.take 2) (by decide +kernel)
+  refine ⟨status_elab_order_independent exT stEnv stOps1 stOps2 ha1 hc1 ha2 hc2 _ (fun c _ hp => ?_), by decide +kernel⟩
+  have hcB : c = "B1" := by
+    have : aget? (pendingStatus (some "B1") [("RAMPING", 370)]).props "parent" = some "B1" := by decide +kernel
+    rw [this] at hp
+    exact (Option.some.inj hp).symm
+  subst hcB
+  constructor
+  · intro h
+    have : ((run exT {} stOps1).findClass "B1").isSome = true := by decide +kernel
+    rw [h] at this
+    cases this
+  · intro h
+    have : ((run exT {} stOps2).findClass "B1").isSome = true := by decide +kernel
+    rw [h] at this
+    cases this
+
 end Frappy.Props.C09
